@@ -55,8 +55,14 @@ func (a *InternalAttributes) Validate() error {
 		return core.ErrEmptyString.Wrap("invalid recipient address")
 	}
 
-	if _, err := sdk.AccAddressFromBech32(a.Recipient); err != nil {
+	recipient, err := sdk.AccAddressFromBech32(a.Recipient)
+	if err != nil {
 		return errorsmod.Wrapf(err, "invalid recipient address")
+	}
+
+	// Forwarding to the module itself would leave the funds on the Orbiter account.
+	if recipient.Equals(core.ModuleAddress) {
+		return core.ErrValidation.Wrap("recipient cannot be the orbiter module account")
 	}
 
 	return nil
